@@ -896,4 +896,106 @@ theorem alb_reverse_forward_kernel (tphif : ℝ → ℝ) (E : Ell ℝ) (A : ALB 
   rw [hrp, hrt]
   exact htphif
 
+/-- **LCC `Reverse ∘ Forward = id` on the kernel level**, for any inversion `tauf` of the conformal-tangent map: for a
+    consistent member set (`n > 0`, `n² + nc² = 1`, `t0nm1 = e^{−nψ0} − 1`, `tchi0 = sinh ψ0`, `scchi0 = cosh ψ0`) and a point
+    with `ψ ≠ ψ0`, positive radius and `drho` below the `_drhomax` clamp, `Reverse` applied to the `(x, y)` of `Forward`
+    recovers `drho`, `dpsi = ψ − ψ0`, `tan χ` (either branch `2n ≤ 1` / `2n > 1`) and `tan φ` exactly.  (The longitude
+    comes back through `atan2(ρ sin θ, ρ cos θ)/n`, not unfolded here; `ψ = ψ0` is the origin parallel.) -/
+theorem lcc_reverse_forward_kernel (tauf : ℝ → ℝ → ℝ) (E : Ell ℝ) (L : LCC ℝ) (sphi cphi lam psi0 : ℝ)
+    (hc : (epsx : ℝ) ≤ cphi)
+    (htauf : tauf (tchiOf E.es sphi (sphi / cphi) (1 / cphi)) E.es = sphi / cphi)
+    (hn : 0 < L.n) (hnc : L.nc ^ 2 = (1 - L.n) * (1 + L.n)) (hs : L.scale ≠ 0)
+    (ht0 : L.t0nm1 = expm1 (-L.n * psi0)) (hp0 : L.psi0 = psi0) (htc0 : L.tchi0 = Real.sinh psi0)
+    (hsc0 : L.scchi0 = Real.cosh psi0) (hr0 : 0 ≤ L.nrho0)
+    (hne : Real.arsinh (tchiOf E.es sphi (sphi / cphi) (1 / cphi)) ≠ psi0)
+    (hρ : 0 < L.nrho0 + L.n * (L.scale / L.n *
+        (Real.exp (-L.n * Real.arsinh (tchiOf E.es sphi (sphi / cphi) (1 / cphi))) - Real.exp (-L.n * psi0))))
+    (hmax : L.scale / L.n * (Real.exp (-L.n * Real.arsinh (tchiOf E.es sphi (sphi / cphi) (1 / cphi))) - Real.exp (-L.n * psi0)) ≤ L.drhomax) :
+    let o := lccForward E L sphi cphi lam
+    let r := lccReverse tauf E L o.x o.y
+    r.drho = L.scale / L.n * (Real.exp (-L.n * Real.arsinh (tchiOf E.es sphi (sphi / cphi) (1 / cphi))) - Real.exp (-L.n * psi0))
+      ∧ r.dpsi = Real.arsinh (tchiOf E.es sphi (sphi / cphi) (1 / cphi)) - psi0
+      ∧ r.tchi = tchiOf E.es sphi (sphi / cphi) (1 / cphi) ∧ r.tphi = sphi / cphi := by
+  intro o r
+  have hcmax : fmax (epsx : ℝ) cphi = cphi := by rw [fmax_real]; exact max_eq_right hc
+  have hn0 : L.n ≠ 0 := hn.ne'
+  have h1n : 1 + L.n ≠ 0 := by linarith
+  generalize htchi : tchiOf E.es sphi (sphi / cphi) (1 / cphi) = tchi at *
+  obtain ⟨psi, hpsi⟩ : ∃ psi, psi = Real.arsinh tchi := ⟨_, rfl⟩
+  rw [← hpsi] at hne hρ hmax ⊢
+  obtain ⟨drho, hdrho⟩ : ∃ d, d = L.scale / L.n * (Real.exp (-L.n * psi) - Real.exp (-L.n * psi0)) := ⟨_, rfl⟩
+  rw [← hdrho] at hρ hmax ⊢
+  generalize hθ : L.n * lam = θ at *
+  have hsc : Real.sin θ ^ 2 + Real.cos θ ^ 2 = 1 := Real.sin_sq_add_cos_sq θ
+  obtain ⟨ρ0, hρ0⟩ : ∃ ρ0, ρ0 = L.nrho0 / L.n := ⟨_, rfl⟩
+  have hnr0 : L.nrho0 = L.n * ρ0 := by rw [hρ0]; field_simp
+  have hρ0nn : 0 ≤ ρ0 := by rw [hρ0]; exact div_nonneg hr0 hn.le
+  have hρpos : 0 < ρ0 + drho := by
+    have : ρ0 + drho = (L.nrho0 + L.n * drho) / L.n := by rw [hρ0]; field_simp
+    rw [this]; exact div_pos hρ hn
+  -- Forward: dpsi and drho in closed form
+  have hsc0' : L.scchi0 = hyp L.tchi0 := by rw [hsc0, htc0, hyp_sinh]
+  have hdpsiF : Dasinh tchi L.tchi0 (hyp tchi) L.scchi0 * (tchi - L.tchi0) = psi - psi0 := by
+    rw [hsc0', lcc_dpsi, htc0, Real.arsinh_sinh, hpsi]
+  have hdrhoF : lccDrho L.scale L.n L.nc L.t0nm1 L.psi0 tchi (hyp tchi) (Real.arsinh tchi) (psi - psi0) = drho := by
+    rw [ht0, hp0, hpsi, lcc_drho_closed L.scale L.n L.nc psi0 tchi hn0 h1n hnc, hdrho, hpsi]
+  have hxy := cone_xy_closed L.n ρ0 drho (Real.sin θ) (Real.cos θ) lam hn0 hsc
+  have hox : o.x = (ρ0 + drho) * Real.sin θ := by
+    simp only [o, lccForward, hcmax, sin_real, asinh_real, one_real, htchi, hdpsiF, hdrhoF, hθ]
+    rw [hnr0, hxy.1]
+  have hoy : o.y = ρ0 - (ρ0 + drho) * Real.cos θ := by
+    simp only [o, lccForward, hcmax, sin_real, cos_real, asinh_real, one_real, htchi, hdpsiF, hdrhoF, hθ]
+    rw [hnr0, hxy.2]
+  -- Reverse
+  have hdr := cone_reverse_drho L.n (ρ0 + drho) ρ0 (Real.sin θ) (Real.cos θ) hn hρpos hρ0nn hsc
+  try simp only at hdr
+  have hh : RealLike.hypot (L.n * o.x) (L.nrho0 - L.n * o.y) = L.n * (ρ0 + drho) := by
+    rw [hox, hoy, hnr0, hypot_real]
+    have e : (L.n * ((ρ0 + drho) * Real.sin θ)) ^ 2 + (L.n * ρ0 - L.n * (ρ0 - (ρ0 + drho) * Real.cos θ)) ^ 2
+        = (L.n * (ρ0 + drho)) ^ 2 := by
+      linear_combination (L.n ^ 2 * (ρ0 + drho) ^ 2) * hsc
+    rw [e, Real.sqrt_sq (by positivity)]
+  have hden : RealLike.hypot (L.n * o.x) (L.nrho0 - L.n * o.y) + L.nrho0 ≠ 0 := by
+    rw [hh, hnr0]; positivity
+  have hclamp : ¬ (L.drhomax < drho) := not_lt.mpr hmax
+  have hrd : r.drho = drho := by
+    simp only [r, lccReverse, eqb_real, ltb_real, zero_real, hn0, hden, isfin_real, decide_false, Bool.not_false, Bool.and_self,
+      if_true, Bool.false_eq_true, if_false]
+    rw [← hox, ← hoy, ← hnr0] at hdr
+    rw [hdr]
+    have e : ρ0 + drho - ρ0 = drho := by ring
+    rw [e]
+    simp only [hclamp, decide_false, Bool.false_eq_true, if_false]
+  obtain ⟨htn, hdp⟩ := lcc_reverse_dpsi L.scale L.n psi psi0 hn0 hs hne
+  try simp only at htn hdp
+  rw [← hdrho, ← ht0] at htn hdp
+  have hpos : ¬ (L.t0nm1 + L.n * drho / L.scale + 1 ≤ 0) := by
+    rw [htn]; have := Real.exp_pos (-L.n * psi); linarith
+  have hrdp : r.dpsi = psi - psi0 := by
+    have h0 : r.dpsi = (if RealLike.eqb (RealLike.hypot (L.n * o.x) (L.nrho0 - L.n * o.y) + L.nrho0) 0 then 0
+        else if !(RealLike.leb (L.t0nm1 + L.n * r.drho / L.scale + 1) 0) then lccDpsiRev L.t0nm1 L.scale (L.t0nm1 + L.n * r.drho / L.scale) r.drho
+        else ahypover) := by
+      simp only [r, lccReverse, eqb_real, hn0, decide_false, Bool.not_false, if_true, zero_real, one_real]
+    rw [h0, hrd]
+    simp only [eqb_real, leb_real, zero_real, one_real, hden, hpos, decide_false, Bool.not_false, if_true, Bool.false_eq_true, if_false]
+    exact hdp
+  have hrt : r.tchi = tchi := by
+    have h0 : r.tchi = (if RealLike.leb (2 * L.n) 1 then lccTchiA L.psi0 L.tchi0 L.scchi0 r.dpsi
+        else lccTchiB L.n L.nc (L.t0nm1 + L.n * r.drho / L.scale)
+          (if RealLike.leb (L.t0nm1 + L.n * r.drho / L.scale + 1) 0 then epsx else L.t0nm1 + L.n * r.drho / L.scale + 1)) := by
+      simp only [r, lccReverse, two_real, one_real, zero_real]
+    rw [h0, hrdp, hrd]
+    have hsinh : Real.sinh psi = tchi := by rw [hpsi, Real.sinh_arsinh]
+    by_cases hb : 2 * L.n ≤ 1
+    · simp only [leb_real, hb, decide_true, if_true]
+      rw [hp0, htc0, hsc0, lcc_reverse_tchiA, hsinh]
+    · simp only [leb_real, zero_real, hb, hpos, decide_false, Bool.false_eq_true, if_false]
+      rw [htn]
+      have e : Real.exp (-L.n * psi) - 1 + 1 = Real.exp (-L.n * psi) := by ring
+      rw [e, lcc_reverse_tchiB L.n L.nc psi hn0 h1n hnc, hsinh]
+  refine ⟨hrd, hrdp, hrt, ?_⟩
+  have hrp : r.tphi = tauf r.tchi E.es := by simp only [r, lccReverse]
+  rw [hrp, hrt]
+  exact htauf
+
 end GeoVerif.Props.C11
